@@ -91,4 +91,13 @@ func init() {
 			{Rule: "EXH", Filter: tag("md"), Floor: 200}, {Rule: "ACC", Filter: tag("md"), Floor: 120}, {Rule: "FLOW", Filter: tag("md"), Floor: 150},
 			{Rule: "FLD-W", Filter: tag("md"), Floor: 200}, {Rule: "FLD-P", Filter: tag("md"), Floor: 200}},
 	})
+	addProperty(&Property{
+		ID:         "C04",
+		Title:      "Every reference in a parsed module is the object that defines it",
+		Decided:    "every definition object the parser allocates flows into a registering index or container, and nothing but the blockaddress placeholder is allocated outside that discipline (ALLOC, SSA value flow); the placeholder is queued, the queue is drained before the module is returned and the fixer installs a block of the function itself or fails (TODO); uses obtain the looked-up object itself, or an error (LK-2, LK-1); locals resolve only in their own function's table (SCOPE); every index is completely filled before any step consults it (PHASE); parent links are set at creation by the parser (PARENT) and by the builder API (CTOR-3).",
+		NotDecided: "identity along paths the flow rules do not model (objects copied by value); the alias-typedef defect F2 (a second type object named like its target), found by reading.",
+		Technique:  "static analysis: SSA value-flow of allocation sites to registering sinks over the VTA call graph, call-graph phase ordering, go/ast idiom rules (ALLOC, TODO, SCOPE, PHASE, PARENT, LK-1, LK-2)",
+		Rules: []RuleUse{{Rule: "ALLOC"}, {Rule: "TODO"}, {Rule: "SCOPE"}, {Rule: "PHASE"}, {Rule: "PARENT"}, {Rule: "LK-1"}, {Rule: "LK-2"},
+			{Rule: "CTOR-3"}},
+	})
 }
